@@ -48,7 +48,13 @@ def gen_cases(ctx):
         if rng.random() < 0.5:
             kw = {'thresholds': [q(p) for p in [0.6, 0.4, 0.25, 0.15, 0.1][:R]]}
         else:
-            kw = {'quantiles': [float(rng.choice([0.3, 0.5, 0.8])) for _ in range(R)]}
+            # the sampler retries for ever by design: keep the overall acceptance (product of quantiles) above ~2% and
+            # use continuous discrepancies (a weighted quantile of tied values can sit on the lowest level)
+            qs = [float(rng.choice([0.3, 0.5, 0.8])) for _ in range(R)]
+            while np.prod(qs) < 0.04:
+                qs[int(np.argmin(qs))] = 0.8
+            kw = {'quantiles': qs}
+            spec['disc']['flavour'] = 'cont'
         case = {'spec': spec, 'bs': int(rng.choice([1, 5, 20, 100])), 'n': int(rng.choice([5, 20, 60, 200])), 'seed': seed, 'kw': kw}
         if case['bs'] == 1 and case['n'] > 60:
             case['n'] = 60
